@@ -30,6 +30,7 @@ type SignedDataSpec struct {
 	SignerCert   *Cert
 	ExtraCerts   []*Cert
 	ExtraFirst   bool // additional certificates before the signer's
+	EncapType    []int // when set: eContentType written into encapContentInfo, while the signed content-type attribute keeps EContentType
 	SIDForm      string // issuerSerial | ski
 	SIDIssuer    Name   // nil: the certificate's issuer name as is
 	SigningTime  *time.Time
@@ -108,7 +109,11 @@ func BuildSignedData(s SignedDataSpec, rng *core.Rng) *SignedData {
 	if s.ExtraFirst {
 		certs = append(certs, s.SignerCert.DER...)
 	}
-	encap := der.Seq(der.OID(s.EContentType...), der.Explicit(0, der.Octet(s.EContent)))
+	encapType := s.EContentType
+	if s.EncapType != nil {
+		encapType = s.EncapType
+	}
+	encap := der.Seq(der.OID(encapType...), der.Explicit(0, der.Octet(s.EContent)))
 	sdContent := [][]byte{der.IntI(3), der.Set(hashID), encap, der.TLV(0xA0, certs), der.Set(si)}
 	var out []byte
 	if s.Indefinite {
